@@ -1208,49 +1208,80 @@ impl Loader {
             fs::create_dir_all(parent_path)
                 .map_err(|e| LoaderError::IO(IoError::new(e, Some(parent_path))))?;
 
-            match LockFile::create(&lock_path)? {
-                Some(_lock) => {
-                    // We won the race, so compile with the lock.
-                    verif_point!("lock:won");
-                    let compile_wasm;
-                    #[cfg(feature = "wasm")]
-                    {
-                        compile_wasm = self.wasm_store.lock().unwrap().is_some();
+            loop {
+                match LockFile::create(&lock_path)? {
+                    Some(_lock) => {
+                        // We won the race, so compile with the lock.
+                        verif_point!("lock:won");
+                        let compile_wasm;
+                        #[cfg(feature = "wasm")]
+                        {
+                            compile_wasm = self.wasm_store.lock().unwrap().is_some();
+                        }
+                        #[cfg(not(feature = "wasm"))]
+                        {
+                            compile_wasm = false;
+                        };
+                        #[cfg(feature = "wasm")]
+                        if compile_wasm {
+                            self.compile_parser_to_wasm(
+                                &config.name,
+                                config.src_path,
+                                config
+                                    .scanner_path
+                                    .as_ref()
+                                    .and_then(|p| p.strip_prefix(config.src_path).ok()),
+                                &output_path,
+                            )?;
+                        }
+                        if !compile_wasm {
+                            self.compile_parser_to_dylib(&config)?;
+                            if config.scanner_path.is_some() {
+                                Self::check_external_scanner(&output_path);
+                            }
+                        }
+                        verif_point!("unlocking");
+                        // _lock dropped here, removing the lock file.
+                        break;
                     }
-                    #[cfg(not(feature = "wasm"))]
-                    {
-                        compile_wasm = false;
-                    };
-                    #[cfg(feature = "wasm")]
-                    if compile_wasm {
-                        self.compile_parser_to_wasm(
-                            &config.name,
-                            config.src_path,
-                            config
-                                .scanner_path
-                                .as_ref()
-                                .and_then(|p| p.strip_prefix(config.src_path).ok()),
-                            &output_path,
-                        )?;
-                    }
-                    if !compile_wasm {
-                        self.compile_parser_to_dylib(&config)?;
-                        if config.scanner_path.is_some() {
-                            Self::check_external_scanner(&output_path);
+                    // Another thread/process is compiling (or a previous run
+                    // crashed and left a stale lock). Wait for it to finish.
+                    None => {
+                        verif_point!("lock:lost");
+                        let timeout = Duration::from_secs(30);
+                        #[cfg(tree_sitter_verif)]
+                        let timeout = verif::lock_timeout(timeout);
+                        match LockFile::wait_for_removal(&lock_path, timeout) {
+                            Ok(()) => {
+                                verif_point!("waited");
+                                // The lock holder may have failed to produce the library.
+                                // Only skip compilation if it is up to date now.
+                                if !needs_recompile(&output_path, &paths_to_check)? {
+                                    break;
+                                }
+                            }
+                            // The lock holder was killed: compilation output is renamed
+                            // into place atomically, so the lock can be taken over.
+                            Err(LoaderError::LockFileTimeout(_)) => {
+                                warn!(
+                                    "Removing stale lock file '{}' and compiling '{}'.",
+                                    lock_path.display(),
+                                    config.name
+                                );
+                                match fs::remove_file(&lock_path) {
+                                    Ok(()) => {}
+                                    Err(e) if e.kind() == std::io::ErrorKind::NotFound => {}
+                                    Err(e) => {
+                                        return Err(LoaderError::IO(IoError::new(
+                                            e,
+                                            Some(lock_path.as_path()),
+                                        )));
+                                    }
+                                }
+                            }
+                            Err(e) => return Err(e),
                         }
                     }
-                    verif_point!("unlocking");
-                    // _lock dropped here, removing the lock file.
-                }
-                // Another thread/process is compiling (or a previous run
-                // crashed and left a stale lock). Wait for it to finish.
-                None => {
-                    verif_point!("lock:lost");
-                    let timeout = Duration::from_secs(30);
-                    #[cfg(tree_sitter_verif)]
-                    let timeout = verif::lock_timeout(timeout);
-                    LockFile::wait_for_removal(&lock_path, timeout)?;
-                    verif_point!("waited");
                 }
             }
         }
